@@ -77,7 +77,9 @@ def pair_to_abstract(c, k):
     rb = 1 if c["rel"] == "same" else 2
     res = [{"chain": "A", "nuc": c["nuc1"]}]
     if rb == 2:
-        res.append({"chain": "A" if c["rel"] == "chain" else "B", "nuc": c["nuc2"]})
+        # two residues of one chain: every second case numbers them N and N^A (same number, insertion code)
+        res.append({"chain": "A" if c["rel"] == "chain" else "B", "nuc": c["nuc2"],
+                    "ins": c["rel"] == "chain" and k % 2 == 1})
     return {"fam": "pair", "cls": c["cls"], "axis": k % 3,
             "test": [{"t": c["ta"], "k": 0, "r": 1, "occ": c["occa"], "x": 0},
                      {"t": c["tb"], "k": 0 if c["same"] else 1, "r": rb, "occ": c["occb"], "x": c["d"]}],
@@ -109,7 +111,7 @@ def multi_abstract(rng, palette, dense=False):
     rng.shuffle(test)
     return {"fam": "multi", "axis": rng.randrange(3), "test": test,
             "res": [{"chain": "A", "nuc": rng.random() < 0.6},
-                    {"chain": rng.choice("AB"), "nuc": rng.random() < 0.6}]}
+                    {"chain": rng.choice("AB"), "nuc": rng.random() < 0.6, "ins": rng.random() < 0.3}]}
 
 
 # ------------------------------------------------------------------ materialisation
@@ -127,6 +129,8 @@ def materialise(ab, shuffle_seed=0):
     integers in 0.01 A on one line, carried along axis ab['axis'])."""
     res = [{"chain": r["chain"], "number": k + 1, "icode": None, "resname": ("G", "C")[k] if r["nuc"] else "LIG",
             "want_nuc": r["nuc"]} for k, r in enumerate(ab["res"])]
+    if len(res) == 2 and ab["res"][1].get("ins") and res[0]["chain"] == res[1]["chain"]:
+        res[1]["number"], res[1]["icode"] = res[0]["number"], "A"       # residues N and N^A
     per = {k + 1: [] for k in range(len(res))}
     for t in ab["test"]:
         name = NAMES[t["t"]][t["k"] % len(NAMES[t["t"]])]
